@@ -69,6 +69,9 @@ def _children(universe_dirs, universe_files, d):
 
 def model_glob(pattern, root, dirs, files):
     """paths (dirs and files of the model) matched by a glob pattern, relative to root or absolute"""
+    if not any(c in pattern for c in "*?["):
+        # a literal entry names the directory or file it names, however it is spelt
+        pattern = os.path.normpath(pattern)
     dirs = set(dirs) | {root}
     d = root
     while d not in ("/", ""):
@@ -180,7 +183,7 @@ def gen_tree(rng, incl_pool):
             suf = rng.choice(LOOKALIKES)
         else:
             suf = rng.choice(incl_pool + [".INC", ".fyp"])
-        stem = rng.choice(["m", "file", "a_tmp", "x_hdf5", "t", "u"]) + str(k)
+        stem = rng.choice(["m", "file", "a_tmp", "x_hdf5", "t", "u", "e\u0301tude", "\u212bng", "sen\u0303al"]) + str(k)
         if suf and not suf.startswith(".") and rng.random() < 0.5:
             stem += "."  # 'file.inc' for suffix 'inc' as well as 'fileinc'
         name = stem + suf
@@ -250,6 +253,27 @@ def gen_cfg(rng, dirs, files, incl_pool):
     return cfg
 
 
+def respell(rng, entry, is_dir=True):
+    """the same literal path written the way people and tools write paths"""
+    if any(c in entry for c in "*?[") or entry in (".", "./") or os.path.isabs(entry) or rng.random() < 0.6:
+        return entry
+    entry = os.path.normpath(entry)
+    parts = entry.split("/")
+    form = rng.randrange(5)
+    if form == 0:
+        return "./" + entry
+    if form == 1:
+        # a trailing separator only ever names a directory
+        return entry + "/" if is_dir else "./" + entry
+    if len(parts) == 1 and not is_dir:
+        return "./" + entry  # 'file/../file' does not name the file: its first part is no directory
+    if form == 2:
+        return "/".join(parts[:1] + ["..", parts[0]] + parts[1:])          # a/../a/b
+    if form == 3:
+        return "/".join(parts[:-1] + [".", parts[-1]])                     # a/./b
+    return parts[0] + "/../" + entry                                        # a/../a/b (same as 2 for depth 1)
+
+
 def channelise(rng, cfg, decoy=None):
     """split the configuration between command line and config file; sometimes the command line
     carries a different value for an option the file sets as well (the file's value is the
@@ -275,7 +299,11 @@ def gen_sched(g):
     incl_pool = [".inc", "inc", ".FYP", ".h", ".fypp"]
     dirs, files, links = gen_tree(rng, incl_pool)
     cfg = gen_cfg(rng, dirs, files, incl_pool)
-    argv, filecfg = channelise(rng, cfg, gen_cfg(rng, dirs, files, incl_pool))
+    spelt = dict(cfg)
+    for k in ("source_dirs", "excl_paths"):
+        if cfg.get(k):
+            spelt[k] = [respell(rng, e, is_dir=(ROOT + "/" + os.path.normpath(e)) in dirs) for e in cfg[k]]
+    argv, filecfg = channelise(rng, spelt, gen_cfg(rng, dirs, files, incl_pool))
     tree = dict(files)
     for lp, target in links.items():
         tree[lp] = {"symlink": target}
